@@ -78,27 +78,30 @@ impl RunRecord {
 }
 
 pub fn runs_for(check: &str, tier: Tier) -> u64 {
+    // thorough = the quick tier's worlds and some eight to ten times as many more (the same generators with
+    // larger worlds, all key types, read(2) faults, more repetitions per world): budgets that have been run to
+    // completion on the unchanged tree (DESIGN 10.7), a few minutes each on 16 cores
     let q = tier == Tier::Quick;
     match check {
-        "C01" | "C02" | "C07" => if q { 36_000 } else { 1_500_000 },
-        "C15" => if q { 24_000 } else { 1_000_000 },
-        "C13" => if q { 12_000 } else { 200_000 },
-        "C06" => if q { 160 } else { 2_500 },
-        "C08" => if q { 192 + C08_PIPELINES_QUICK } else { 4_000 + C08_PIPELINES_THOROUGH },
-        "C03" => if q { 100_000 } else { 5_000_000 },
-        "C04" => if q { 80_000 } else { 3_000_000 },
-        "C09" => if q { 8_000 } else { 250_000 },
-        "C05" => if q { 1_000 } else { 30_000 },
-        "C14" => if q { 100_000 } else { 4_000_000 },
-        "C17" => if q { 60_000 } else { 3_000_000 },
-        "C18" => if q { 160_000 } else { 4_000_000 },
+        "C01" | "C02" | "C07" => if q { 36_000 } else { 360_000 },
+        "C15" => if q { 24_000 } else { 240_000 },
+        "C13" => if q { 12_000 } else { 100_000 },
+        "C06" => if q { 160 } else { 1_200 },
+        "C08" => if q { 192 + C08_PIPELINES_QUICK } else { 1_600 + C08_PIPELINES_THOROUGH },
+        "C03" => if q { 100_000 } else { 1_200_000 },
+        "C04" => if q { 80_000 } else { 600_000 },
+        "C09" => if q { 8_000 } else { 64_000 },
+        "C05" => if q { 1_000 } else { 8_000 },
+        "C14" => if q { 100_000 } else { 800_000 },
+        "C17" => if q { 60_000 } else { 600_000 },
+        "C18" => if q { 160_000 } else { 1_500_000 },
         _ => 0,
     }
 }
 
 /// C08: run indices beyond the grid worlds are pipeline runs with an inspection over the delivered product
 pub const C08_PIPELINES_QUICK: u64 = 1_024;
-pub const C08_PIPELINES_THOROUGH: u64 = 40_000;
+pub const C08_PIPELINES_THOROUGH: u64 = 10_000;
 
 pub fn level_of(check: &str) -> &'static str {
     match check {
